@@ -24,7 +24,8 @@
 EXTENDS PubSubCore, Json, IOUtils
 
 CONSTANTS
-    MinWait     \* shortest wait after which a blocking Pull may return empty
+    MinWait,    \* shortest wait after which a blocking Pull may return empty
+    Prompt      \* how soon after a deletion its waiting consumers must have been released
 
 Rec == ndJsonDeserialize(IOEnv.TRACE)
 
@@ -131,6 +132,15 @@ RacedDeletion(W, name) == \E si \in SubLookups(W, name) \ {None} : si \in DOMAIN
 
 AcksAreInts(p) == p.bad = 0
 
+\* The instants at which the deletion of a subscription that call c looked up was completed.
+DeletionTimes(W, name) ==
+    {w.t : w \in {x \in W : x.k = "s.del1" /\ x.si \in SubLookups(W, name)}}
+
+\* A consumer of a deleted subscription is released within `Prompt` of the deletion (C12);
+\* decided only under the paused clock.
+ReleasedPromptly(W, name, t) ==
+    JudgeLate => \A d \in DeletionTimes(W, name) : t <= d + Prompt
+
 ListRetGuards(p, e, W, kinds) ==
     LET evs == {w \in W : w.k \in kinds} IN
     { G("C13", e.code \in {"OK", "INVALID_ARGUMENT", "NOT_FOUND"}),
@@ -202,13 +212,13 @@ RetGuards(c, e) ==
           G("C12", e.code \notin {"OK", "NOT_FOUND", "ALREADY_EXISTS", "INVALID_ARGUMENT"} =>
                        \E w \in W : w.k = "m.cs" /\ w.name = p.name /\ w.ok /\ w.si \in DOMAIN S /\ S[w.si].st # "live") }
       [] p.op = "GetSub" ->
-        { G("C10", e.code = "NOT_FOUND" => None \in SubLookups(W, p.name)),
+        { G("C10", e.code = "NOT_FOUND" => (None \in SubLookups(W, p.name) \/ RacedDeletion(W, p.name))),
           G("C10", e.code = "OK" => SubLookups(W, p.name) \ {None} # {}),
           G("C12", e.code \notin {"OK", "NOT_FOUND"} => RacedDeletion(W, p.name)) }
         \cup (IF e.code = "OK" /\ Cardinality(SubLookups(W, p.name) \ {None}) = 1
               THEN SubEchoGuards(c, e.body, CHOOSE si \in SubLookups(W, p.name) \ {None} : TRUE) ELSE {})
       [] p.op = "DeleteSub" ->
-        { G("C10", e.code = "NOT_FOUND" => None \in SubLookups(W, p.name)),
+        { G("C10", e.code = "NOT_FOUND" => (None \in SubLookups(W, p.name) \/ RacedDeletion(W, p.name))),
           G("C10", e.code = "OK" => \E si \in SubLookups(W, p.name) \ {None} :
                        /\ S[si].st = "deleted"
                        /\ ~(p.name \in DOMAIN smap /\ smap[p.name] = si)),
@@ -221,21 +231,24 @@ RetGuards(c, e) ==
         ListRetGuards(p, e, W, {"t.list"}) \cup
         { G("C10", e.code = "NOT_FOUND" => None \in TopicLookups(W, p.topic)) }
       [] p.op = "Pull" ->
-        { G("C10", e.code = "NOT_FOUND" => None \in SubLookups(W, p.sub)),
+        { G("C10", e.code = "NOT_FOUND" => (None \in SubLookups(W, p.sub) \/ RacedDeletion(W, p.sub))),
           G("C15", e.code = "OK" => (p.max >= 1 => Len(e.body.msgs) <= p.max)),
           G("C15", (e.code = "OK" /\ e.body.msgs = <<>>) =>
                        (p.ri \/ e.t - p.t >= MinWait \/ RacedDeletion(W, p.sub))),
           G("C03", (e.code = "OK" /\ e.body.msgs # <<>>) =>
                        \E w \in W : w.k = "s.pull" /\ w.si \in SubLookups(W, p.sub) /\ SameDeliveries(e.body.msgs, w.out)),
-          G("C12", e.code \notin {"OK", "NOT_FOUND"} => RacedDeletion(W, p.sub)) }
+          G("C12", e.code \notin {"OK", "NOT_FOUND"} => RacedDeletion(W, p.sub)),
+          \* a blocked pull on a deleted subscription ends with an error status, promptly
+          G("C12", (~p.ri /\ RacedDeletion(W, p.sub) /\ e.code = "OK") => e.body.msgs # <<>>),
+          G("C12", (~p.ri /\ RacedDeletion(W, p.sub)) => ReleasedPromptly(W, p.sub, e.t)) }
         \cup (IF e.code = "OK" THEN ContentGuards(e.body.msgs) ELSE {})
       [] p.op = "Ack" ->
-        { G("C10", e.code = "NOT_FOUND" => None \in SubLookups(W, p.sub)),
+        { G("C10", e.code = "NOT_FOUND" => (None \in SubLookups(W, p.sub) \/ RacedDeletion(W, p.sub))),
           G("C17", e.code = "INVALID_ARGUMENT" <=> ~AcksAreInts(p)),
           G("C02", e.code = "OK" => \E w \in W : w.k = "s.ack" /\ w.si \in SubLookups(W, p.sub) /\ w.acks = p.acks),
           G("C12", e.code \notin {"OK", "NOT_FOUND", "INVALID_ARGUMENT"} => RacedDeletion(W, p.sub)) }
       [] p.op = "ModAck" ->
-        { G("C10", e.code = "NOT_FOUND" => None \in SubLookups(W, p.sub)),
+        { G("C10", e.code = "NOT_FOUND" => (None \in SubLookups(W, p.sub) \/ RacedDeletion(W, p.sub))),
           G("C05", e.code = "INVALID_ARGUMENT" <=> (p.acks # <<>> /\ (~AcksAreInts(p) \/ p.secs < 0))),
           G("C05", (e.code = "INVALID_ARGUMENT" /\ Solo(c)) => ~\E w \in W : w.k = "s.mod"),
           G("C05", e.code = "OK" => \E w \in W : w.k = "s.mod" /\ w.si \in SubLookups(W, p.sub)
@@ -356,13 +369,18 @@ EvGuards(e) ==
             IF e.c \notin DOMAIN pend THEN { G("BIND", FALSE) } ELSE
             LET p == pend[e.c].e
                 W == Win(e.c) IN
-            { G("C10", (~e.opened /\ e.code = "NOT_FOUND") => None \in SubLookups(W, p.sub)),
+            { G("C10", (~e.opened /\ e.code = "NOT_FOUND") => (None \in SubLookups(W, p.sub) \/ RacedDeletion(W, p.sub))),
               \* a stream on a deleted subscription ends with NOT_FOUND, never silently
               G("C12", (e.opened /\ RacedDeletion(W, p.sub)) => e.code = "NOT_FOUND"),
-              G("C12", e.opened => e.code # "EOS") }
+              G("C12", e.opened => e.code # "EOS"),
+              G("C12", (e.opened /\ RacedDeletion(W, p.sub)) => ReleasedPromptly(W, p.sub, e.t)) }
       [] e.k = "ret" -> IF e.c \in DOMAIN pend THEN RetGuards(e.c, e) ELSE { G("BIND", FALSE) }
       [] e.k = "cancel" -> {}
-      [] e.k = "hang" -> { G("C07", FALSE) }
+      [] e.k = "hang" ->
+            { G("C07", FALSE) } \cup
+            (IF e.c \in DOMAIN pend /\ pend[e.c].e.op \in {"StreamOpen", "Pull"}
+                /\ RacedDeletion(Win(e.c), pend[e.c].e.sub)
+             THEN { G("C12", FALSE) } ELSE {})
       [] e.k = "panic" -> { G("C17", FALSE) }
       [] e.k = "abort" -> { G("C17", FALSE) }      \* the server process died
       [] e.k = "end" ->
